@@ -213,6 +213,8 @@ def op_json(op, actx):
                 cons.append(j)
         if not list(table.columns):
             raise Unrepresentable("create_table without columns")
+        if len(list(table.columns)) + len(cons) > render.MAX_PYTHON_ARGS:
+            raise Unrepresentable("create_table with more than MAX_PYTHON_ARGS arguments (*[...] form)")
         return {
             "kind": "create_table",
             "table": cps(render._ident(op.table_name)),
